@@ -31,8 +31,8 @@ RULE = ("seeded generator of SOURCE FILES: a small musical chart on a beat grid 
         "besides the taps and holds; BMS: each of the five layouts, channel 03 and 08 tempo objects, header tempo replaced at 0/0, "
         "LNOBJ long notes, #WAV tables; O2Jam: three difficulties, header tempo alone or a tempo event at position 0) x each of the 16 "
         "source->target pairs (BMS targets: a random layout holding the key count, column shift 0/1; O2JToBMS with its default shift); "
-        "per pair 10 plain cases + 2 per finding-directed scenario (t0, sv_early, offline, topcol, cs, nohdr, sjis_wav, ev0, eighth, "
-        "bpm4, pad, nostops) + files from the generators of C01 / C06 / C07 for millisecond targets; the committed corpus (one minimal "
+        "per pair 10 plain cases + 2 per directed scenario (t0, sv_early, offline, topcol, cs, nohdr, sjis_wav, ev0, eighth, "
+        "bpm4, pad, nostops, empty) + files from the generators of C01 / C06 / C07 for millisecond targets; the committed corpus (one minimal "
         "file per known finding) runs first; one Coq term per written target (StepMania chart / O2Jam difficulty); non-trivial: the "
         "source chart has at least one note; distinct by hash of the case")
 ASSUMPTIONS = [
@@ -984,6 +984,7 @@ SCENARIOS = [
     ("bpm4", lambda a, b: b == "bms"),                                # tempo with more than three decimals
     ("pad", lambda a, b: b == "sm"),                                  # empty leading measures, key count other than 4
     ("nostops", lambda a, b: a == "sm"),                              # no #STOPS tag
+    ("empty", lambda a, b: True),                                     # a chart without notes
 ]
 
 
@@ -1041,6 +1042,8 @@ def gen_case(rng, a, b, scen="clean"):
         opt["shift"] = 1 if a == "o2j" else (0 if a == "sm" else rng.choice([0, 0, 0, 1]))
         opt["tgt_layout"] = rng.choice([l for l in LAYOUTS if LAYOUT_KEYS[l] >= keys + opt["shift"]])
     abs_ = [gen_abstract(rng, keys, **kw)]
+    if scen == "empty":
+        abs_[0]["notes"] = []
     if scen == "topcol":                                             # keep the top column(s) free
         top = keys - rng.choice([1, 2, 3])
         abs_[0]["notes"] = [(c % top, bt, ln) for (c, bt, ln) in abs_[0]["notes"]]
@@ -1051,6 +1054,8 @@ def gen_case(rng, a, b, scen="clean"):
         abs_.append(ab2)
     if a == "o2j":
         abs_ += [gen_abstract(rng, 7, **kw) for _ in range(2)]
+        if scen == "empty":
+            abs_[2]["notes"] = []
     return build_case(a, b, [_ab_json(x) for x in abs_], rng.randrange(1 << 30), opt)
 
 
@@ -1273,6 +1278,18 @@ def diagnose(case, out, k):
     tg = out.get("targets")
     exc = out.get("exc") if tg is None else (tg[k].get("exc") if k < len(tg) and tg[k]["v"] is None else None)
     if tg is not None and k >= len(tg):
+        return None
+    # ---- a chart without notes: column.max() is NaN, so the key count "derived" from it is no key count at all
+    #      (ValueError: cannot convert float NaN, chart type '', CircleSize:nan)
+    if stl is not None and not stl["notes"] and (b == "sm" or (a, b) in (("bms", "qua"), ("bms", "osu"))):
+        if exc is not None:
+            if "NaN" in exc or exc.startswith("write: TypeError") or "isn't supported" in exc:
+                return "keys-from-max-column"
+            return None
+        try:
+            tl_target(case, tg[k]["v"])
+        except Exception:
+            return "keys-from-max-column"
         return None
     # ---- the pipeline raised
     if exc is not None:
